@@ -105,14 +105,18 @@ struct RecSpec {
     kv: u8,
 }
 
+static THOROUGH: std::sync::atomic::AtomicBool = std::sync::atomic::AtomicBool::new(false);
+
 fn recspecs() -> Vec<RecSpec> {
+    let all = THOROUGH.load(std::sync::atomic::Ordering::Relaxed);
     let mut v = Vec::new();
     for msg in messages() {
         for bits in 0..8u8 {
             for kv in 0..3u8 {
                 for level in LEVELS {
                     // keep the product manageable: levels vary only with the full field set
-                    if level != Level::Info && bits != 7 {
+                    // (the thorough tier takes the full product)
+                    if !all && level != Level::Info && bits != 7 {
                         continue;
                     }
                     v.push(RecSpec {
@@ -517,7 +521,8 @@ fn bounds(_tier: &str) -> Value {
     json!({"records_per_configuration": recspecs().len(), "formats": FMTS.len(), "endings": 2, "modes": MODES.len(), "messages": messages().len()})
 }
 
-fn run_unit(_tier: &str, unit: usize, out: &mut Out) {
+fn run_unit(tier: &str, unit: usize, out: &mut Out) {
+    THOROUGH.store(tier != "quick", std::sync::atomic::Ordering::Relaxed);
     let case = json!({"unit": unit});
     let results: Vec<Ran<Result<(u64, u64), Fail>>> = if unit < n_framing() {
         let fmt = FMTS[unit / (2 * MODES.len())];
